@@ -71,7 +71,8 @@ type Case struct {
 	DstLen        int // resolved by normalise
 	ForkAt        int
 	DstPlans      []DstPlan
-	IntegrateMask uint // bit n%16: the sequencer integrates just before the n-th GetLatestSignedLogRoot
+	DstLatMs      int64 // AddSequencedLeaves for a batch starting at s takes (s % 3) * DstLatMs
+	IntegrateMask uint  // bit n%16: the sequencer integrates just before the n-th GetLatestSignedLogRoot
 
 	// configuration
 	Batch        int
@@ -208,6 +209,9 @@ func (c *Case) normalise() {
 	if c.DstLen == 0 {
 		c.DstKind = dstEmpty
 	}
+	if c.DstLatMs < 0 {
+		c.DstLatMs = 0
+	}
 	if len(c.DstPlans) == 0 {
 		c.DstPlans = []DstPlan{{}}
 	}
@@ -302,6 +306,9 @@ func genSrcFault(t *rapid.T, label string, special bool) int {
 	if weighted(t, label+"Slow", 9, 1) == 1 {
 		return fSlow
 	}
+	if special && weighted(t, label+"Special", 2, 1) == 1 {
+		return fSpecial
+	}
 	k := rapid.IntRange(1, hi).Draw(t, label)
 	if k == fSlow {
 		k = f503
@@ -377,7 +384,7 @@ func genCase(t *rapid.T, elect bool) Case {
 			c.STHFaults = append(c.STHFaults, k)
 		}
 	}
-	if weighted(t, "consFaults", 3, 1) == 1 {
+	if weighted(t, "consFaults", 2, 1) == 1 {
 		n := rapid.IntRange(1, 4).Draw(t, "nConsFaults")
 		for i := 0; i < n; i++ {
 			k := 0
@@ -396,6 +403,9 @@ func genCase(t *rapid.T, elect bool) Case {
 	if c.DstKind == dstPrefix && weighted(t, "dstNear", 2, 1) == 1 {
 		c.DstLen = first - rapid.IntRange(0, 3).Draw(t, "dstBack")
 	}
+	if c.DstKind == dstFork && weighted(t, "forkSmall", 2, 1) == 1 {
+		c.DstLen = rapid.IntRange(0, 2).Draw(t, "forkLen") // destinations of 1-3 entries
+	}
 	c.ForkAt = rapid.IntRange(0, mx+2).Draw(t, "forkAt")
 	nDP := rapid.IntRange(1, 4).Draw(t, "nDstPlans")
 	for i := 0; i < nDP; i++ {
@@ -412,6 +422,9 @@ func genCase(t *rapid.T, elect bool) Case {
 			p.FatalN = 1
 		}
 		c.DstPlans = append(c.DstPlans, p)
+	}
+	if weighted(t, "dstLat", 1, 1) == 1 {
+		c.DstLatMs = int64(rapid.IntRange(1, 400).Draw(t, "dstLatMs"))
 	}
 	c.IntegrateMask = uint(rapid.IntRange(0, 0xffff).Draw(t, "integrateMask"))
 
@@ -430,7 +443,7 @@ func genCase(t *rapid.T, elect bool) Case {
 		case 1:
 			c.Start = 0
 		case 2:
-			c.Start = int64(rapid.IntRange(0, mx).Draw(t, "start")) // resolved against the destination below
+			c.Start = int64(rapid.IntRange(0, mx).Draw(t, "start"))
 		case 3:
 			c.Start = int64(rapid.IntRange(0, mx+5).Draw(t, "startAny"))
 		}
